@@ -400,7 +400,7 @@ var c03Durations = [][]string{
 
 var c03Sizes = [][]any{
 	{"1gb", "1024m", 1073741824, "1g", "1048576k"}, {"64m", "65536k", 67108864, "64mb", "67108864"}, {"2k", 2048, "2kb", "2048b", "2048"}, {"512", 512, "512b"},
-	{"1.5g", "1536m", 1610612736, "1.5gb", "1.5GiB"}, {"1GiB", "1gib", "1024MiB", "1G", "1 gb"}, {"0", 0, "0b", "0k"}, {"10MB", "10m", "10Mb", "10485760"},
+	{"1.5g", "1536m", 1610612736, "1.5gb", "1.5GiB"}, {"1500000000", 1500000000, 1.5e9, "1.5e9"}, {"2048", 2048.0, 2048}, {"1GiB", "1gib", "1024MiB", "1G", "1 gb"}, {"0", 0, "0b", "0k"}, {"10MB", "10m", "10Mb", "10485760"},
 }
 
 // ---- pair generators ----
@@ -632,9 +632,15 @@ func genC03(t *rapid.T) c03Case {
 		attr := rapid.SampledFrom([]string{"mem_limit", "shm_size", "memswap_limit", "mem_reservation", "build.shm_size", "deploy.resources.limits.memory", "deploy.resources.reservations.memory"}).Draw(t, "battr")
 		class := rapid.SampledFrom(c03Sizes).Draw(t, "bclass")
 		a, b := class[0], rapid.SampledFrom(class[1:]).Draw(t, "balt")
-		if _, isInt := b.(int); isInt && strings.HasPrefix(attr, "deploy.") {
+		if _, isStr := b.(string); !isStr && strings.HasPrefix(attr, "deploy.") {
 			// the schema admits only strings for deploy.resources.*.memory
 			b = fmt.Sprint(b)
+			if f, ok := class[1].(float64); ok && b == fmt.Sprint(f) {
+				b = class[0]
+			}
+		}
+		if f, ok := b.(float64); ok && strings.HasPrefix(attr, "deploy.") {
+			b = fmt.Sprintf("%.0f", f)
 		}
 		p.Attr = "bytes:" + attr
 		p.Path, p.Short, p.Long, p.Key = strings.Split(attr, "."), b, a, attr+fmt.Sprint(b)
